@@ -5,8 +5,8 @@ CONSTANTS
   MaxEv = 4
   MaxAct = 4
   Budget = 2
-  NDrv = 2
-  DrvBudget = 2
+  NDrv = 1
+  DrvBudget = 3
   MaxDepth = 2
   QueueCap = 0
   HardLimit = 0
